@@ -429,6 +429,63 @@ mut('x12-strict-swallowed', ['C08'], ['X12'], [('render/render.go',
 	}'''), ('render/render.go', '''	"errors"
 ''', '')], 'an undefined variable in strict mode renders nothing instead of failing')
 
+mut('m1-generic-helper', ['C03','C15'], ['M1'], [('filters/standard_filters.go',
+ '''func reverseFilter(a []any) any {
+	result := make([]any, len(a))
+	for i, x := range a {
+		result[len(result)-1-i] = x
+	}
+	return result
+}''',
+ '''func reverseFilter(a []any) any {
+	reverseInPlace(a)
+	return a
+}
+
+func reverseInPlace[T any](s []T) {
+	for i, j := 0, len(s)-1; i < j; i, j = i+1, j-1 {
+		s[i], s[j] = s[j], s[i]
+	}
+}''')], 'a generic helper of the module that writes its argument: instances are read as the generic')
+mut('e10-buffered-block', ['C10','C11','C05'], ['E10'], [('render/context.go',
+ '''	return c.ctx.RenderSequence(w, b.Body)''',
+ '''	buf := new(bytes.Buffer)
+	if err := c.ctx.RenderSequence(buf, b.Body); err != nil {
+		return err
+	}
+	_, err := w.Write(buf.Bytes())
+	return err''')], 'a branch rendered into a private buffer that is copied out only on success')
+mut('g7-blank-text-dropped', ['C13','C05','C06'], ['G7'], [('parser/parser.go',
+ '''		case tok.Type == TextTokenType:
+			*ap = append(*ap, &ASTText{Token: tok})''',
+ '''		case tok.Type == TextTokenType:
+			if strings.TrimSpace(tok.Source) == "" && len(*ap) == 0 {
+				continue
+			}
+			*ap = append(*ap, &ASTText{Token: tok})''')], 'a text token that leaves no node')
+mut('x17-when-or-rewrite', ['C10','C08'], ['X17'], [('expressions/parser.go',
+ '''	lex := newLexer([]byte(source + ";"))''',
+ '''	lex := newLexer([]byte(strings.ReplaceAll(source, " or ", ", ") + ";"))'''), ('expressions/parser.go',
+ '''import (
+	"fmt"
+''',
+ '''import (
+	"fmt"
+	"strings"
+''')], 'the source rewritten before lexing')
+mut('f12-size-without-range', ['C15','C18'], ['F12'], [('values/arrays.go',
+ '''	if r, ok := value.(Range); ok {
+		return r.Len()
+	}
+''',
+ '''''')], 'size answers 0 for a range again')
+mut('p13-int-on-any-integer', ['C01'], ['P13'], [('values/value.go',
+ '''	if n, ok := v.value.(int); ok {
+		return n
+	}''',
+ '''	if rv := reflect.ValueOf(v.value); isIntKind(rv.Kind()) {
+		return int(rv.Int())
+	}''')], 'reflect Int on a value that may be unsigned')
 out = '/verif/selftest/mutants'
 for d in os.listdir(out):
     if d.startswith('own-'):
